@@ -42,7 +42,7 @@ def specs(bridge):
           T('INTEGER', [('E', 128, 1)]), T('ANY'), T('GeneralizedTime'), T('BMPString'),
           T('SEQUENCE', fields=[('a', T('INTEGER'), 'req')]),
           T('SEQUENCE', fields=[('a', T('INTEGER'), 'req'), ('b', T('INTEGER'), 'opt')]),
-          T('SET', fields=[('a', T('INTEGER'), 'req')])]
+          T('SET', fields=[('a', T('INTEGER'), 'req')]), T('SEQUENCE', fields=[('id', T('OID'), 'req')])]
     out = [None] + [bridge.to_type(t) for t in ts]
     # constrained guides: the error message of a violated constraint shows the offending value
     from pyasn1.type import constraint
@@ -235,6 +235,12 @@ def inputs(tier, seed):
         '24802480040161000004016200 00', '240a24800401610000040162', '2c802480 0402c3a9 0000 0000', '2480 2405 0401 61 0401 62 0000',
         '2380 2380 0302 0061 0000 0000', '2309 2380 0302 0061 0000 03 00'.replace(' ', '') + '', '3080 2480 2480 0401 61 0000 0000 0000',
         'a080 2480 2480 0401 61 0000 0000 0000')]
+    # numbers beyond the interpreter's decimal conversion limit in places that error messages print: a long-form tag number,
+    # an OID arc (alone, before a truncated sub-identifier, before an excess member of an indefinite-length record)
+    hugearc = bytes.fromhex('068208362a') + b'\xff' * 2100 + b'\x01'
+    out += [b'\x1f' + b'\xff' * 2100 + b'\x01\x00', b'\xbf' + b'\xff' * 2100 + b'\x01\x03\x02\x01\x05',
+            bytes.fromhex('068208372a') + b'\xff' * 2100 + b'\x01\x81', hugearc, b'\x30\x80' + hugearc + b'\x05\x00\x00\x00',
+            bytes.fromhex('3082083e') + hugearc + b'\x02\x01\x05']
     # explicit tags with nothing / too much inside
     out += [b'\xa0\x00', b'\xa0\x80\x00\x00', b'\xa1\x06\x02\x01\x01\x02\x01\x02', b'\xa1\x80\x02\x01\x01\x02\x01\x02\x00\x00']
     # single-edit neighbours of valid encodings
